@@ -23,6 +23,7 @@ from typing import Optional
 
 from ..engine.srcmodel import AnalysisError, ClassInfo, Model, dotted, stmt_text
 from ..engine.report import RuleResult, Finding
+from .common import finding
 
 BUILTIN_PROTOTYPES = {'boolean': 'bool', 'decimal': 'Decimal', 'double': 'float', 'string': 'str'}
 UR_TYPES = {'untypedAtomic', 'anyType', 'anySimpleType', 'anyAtomicType'}
@@ -104,6 +105,55 @@ def tables(model: Model):
             if isinstance(key, str) and '}' in key:
                 list_names.add(key.split('}')[1])
     return mod, out, list_names
+
+
+def r20_3(ctx, counts) -> RuleResult:
+    from ..engine.cfg import CFG
+    from ..engine.dataflow import branch_facts
+    from ..engine.srcmodel import walk_local
+    model: Model = ctx.model
+    res = RuleResult(
+        'R20.3', 'VALIDITY-CACHE-MONOTONE',
+        'AbstractSchemaProxy.is_fully_valid may remember a positive answer only: a schema that '
+        'was not fully valid when first asked becomes valid once it is built, so on every path '
+        'to a return that does not pass the recomputation (the assignment of the cached '
+        'attribute from the validity expression) the branch facts establish that the cached '
+        'attribute is truthy. A cached False would keep every node untyped for the life of the '
+        'proxy.')
+    cls = model.find_class('AbstractSchemaProxy')
+    f = cls.methods.get('is_fully_valid')
+    if f is None:
+        raise AnalysisError('AbstractSchemaProxy.is_fully_valid vanished')
+    cfg = CFG(f.node)
+    facts = branch_facts(cfg)
+    recompute = [nd for nd in cfg.nodes if nd.kind == 'stmt' and isinstance(nd.ast, (ast.Assign, ast.AnnAssign))
+                 and any(dotted(t).startswith('self._') for t in (
+                     nd.ast.targets if isinstance(nd.ast, ast.Assign) else [nd.ast.target]))
+                 and 'valid' in stmt_text(nd.ast.value or ast.Constant(''))]
+    if not recompute:
+        raise AnalysisError('is_fully_valid: recomputation assignment not located')
+    attr = dotted(recompute[0].ast.targets[0] if isinstance(recompute[0].ast, ast.Assign)
+                  else recompute[0].ast.target)
+    n = 0
+    for nd in cfg.nodes:
+        if nd.kind != 'stmt' or not isinstance(nd.ast, ast.Return):
+            continue
+        n += 1
+        fresh = cfg.path_avoiding([cfg.entry], lambda q, nd=nd: q is nd,
+                                  lambda q: q in recompute) is None
+        truthy = f'+{attr}' in facts[nd.id] or f'+{attr} is True' in facts[nd.id]
+        res.instances.append(f'{f.key}: `{stmt_text(nd.ast)}` recomputed={fresh} '
+                             f'cached-and-truthy={truthy}')
+        if fresh or truthy:
+            res.ok()
+        else:
+            res.fail(finding('R20.3', f, nd.ast, 'cached negative answer',
+                             f'`{stmt_text(nd.ast)}` can return the cached `{attr}` without '
+                             f'recomputing it and without knowing that it is true: a proxy asked '
+                             f'once before schema.build() answers "not fully valid" for ever and '
+                             f'no node gets a type'))
+    counts['validity_returns'] = n
+    return res
 
 
 def run(ctx) -> dict:
@@ -195,7 +245,7 @@ def run(ctx) -> dict:
             r2.ok()
     counts['named_atomic_types'] = len(named)
     return {
-        'results': [r1, r2], 'counts': counts,
+        'results': [r1, r2, r20_3(ctx, counts)], 'counts': counts,
         'explanation':
             'Only the table-shaped necessary condition of "the typed value is an instance of the '
             'datatype class of its declared type" is decided: the prototype table that '
